@@ -385,9 +385,10 @@ impl DmlExecutor {
             .get_row_at(position, &schema, &snapshot)?
             .expect("Tuple should exist");
 
-        // Mark as deleted
+        // Mark as deleted. A mark left by a transaction that aborted does not count:
+        // the tuple is visible to us and our mark replaces it.
         let mut deleted_tuple = tuple.clone();
-        deleted_tuple.delete(snapshot.xid())?;
+        self.mark_deleted(&mut deleted_tuple, &snapshot)?;
 
         // Log the delete
         self.logger
@@ -407,6 +408,26 @@ impl DmlExecutor {
         )?;
 
         Ok(DeleteResult { deleted: true })
+    }
+
+    /// Marks [tuple] as deleted by this transaction. A mark left by a transaction that has aborted
+    /// does not count (the tuple is visible to us) and is replaced. The snapshot only knows who had
+    /// aborted when it was taken; page zero knows who has by now.
+    fn mark_deleted(
+        &self,
+        tuple: &mut Tuple,
+        snapshot: &crate::runtime::Snapshot,
+    ) -> RuntimeResult<()> {
+        let marked_by_aborted = tuple.xmax().is_some_and(|xmax| {
+            snapshot.is_transaction_aborted(xmax)
+                || self.ctx.pager().read().is_transaction_aborted(xmax)
+        });
+        if marked_by_aborted {
+            tuple.set_xmax(Some(snapshot.xid()));
+        } else {
+            tuple.delete(snapshot.xid())?;
+        }
+        Ok(())
     }
 
     /// Builds a full row with default values, mapping input columns to schema positions.
@@ -550,7 +571,7 @@ impl DmlExecutor {
                         })?;
 
                         if let Some(mut tuple) = updated {
-                            tuple.delete(self.ctx.tid())?;
+                            self.mark_deleted(&mut tuple, &snapshot)?;
                             index_btree.update(index_root, tuple, index_schema)?;
                         }
                     };
